@@ -1,5 +1,3 @@
-#[cfg(naijascript_verif)]
-use crate::sys::verif_shim::fake_std as std;
 use std::io::{self, Read, Write};
 use std::process::{Child, Command, Stdio};
 use std::sync::Arc;
@@ -11,6 +9,8 @@ use crate::arena::{Arena, ArenaString};
 use crate::process::{
     OutputPolicy, ProcessCaps, ProcessError, ProcessResult, ProcessSpec, ProcessStream, StdinPolicy,
 };
+#[cfg(naijascript_verif)]
+use crate::sys::verif_shim::fake_std as std;
 
 pub fn run_host_process<'arena>(
     spec: &ProcessSpec<'_>,
